@@ -64,8 +64,8 @@ def generate(seed, tier):
             continue
         have += 1
         params, inits = G.instantiate_params(random.Random(cs), meta, prog)
-        cases.append({"id": f"gen-{cs}", "text": program_str(prog), "ast": prog.to_json(), "params": K.frac_enc(params),
-                      "inits": K.frac_enc(inits), "N": 3, "settings": {}, "features": feats + ["cfg:default"]})
+        cases.insert(0, {"id": f"gen-{cs}", "text": program_str(prog), "ast": prog.to_json(), "params": K.frac_enc(params),
+                         "inits": K.frac_enc(inits), "N": 3, "settings": {}, "features": feats + ["cfg:default"]})
     for c in CORPUS.cases(seed, tier, 25 if tier == "quick" else 300, ID, N=4):
         c["settings"] = {}
         cases.append(c)
